@@ -95,3 +95,31 @@ reg("C13", harness="c13_update", level="exploration", deadline=(240, 1500),
     runs=[dict(flavour="sim")],
     rule="case = (implementation, len, k, rows, update history, placements); distinct_nontrivial = distinct (implementation, shape point) groups "
          "completed; evaluations = single update calls whose resulting parity was compared with the reference.")
+
+
+reg("C08", harness="c08_raid", level="exploration", deadline=(300, 1500),
+    technique="bounded-exhaustive enumeration (variant x vects x len x placement x basis data) and complete single-byte corruption closure, guard pages",
+    level_text="Every RAID variant (13 direct symbols + 4 dispatched entries under 6 CPU levels): generation for vects=min..6 at every admissible "
+               "length 0..600 (1200) in 3 placements with dense data and a unit impulse at every byte of every source (len<=256), vects up to 257; "
+               "checks: consistent arrays give 0 and EVERY single-byte corruption (3 values) of EVERY vector incl. P and Q is reported for "
+               "len<=256 (600); below-minimum vects with unmapped arrays must be refused without a fault; every pair of lost data blocks is "
+               "rebuilt from generated P/Q for vects<=10.",
+    level_note="parity is GF(2)-linear in the sources: impulses + dense data decide all data under the no-data-dependent-branch assumption; "
+               "trusted: ref/ref_gf.h (Q = Horner in 2 over 0x11D).",
+    runs=[dict(flavour="sim")],
+    rule="case = (implementation, vects, len, placement, data) / (implementation, vects, len, corrupted vector, position, value); "
+         "distinct_nontrivial = distinct (implementation, vects, len) points completed; evaluations = calls compared with the reference.")
+
+
+reg("C09", harness="c09_invert", level="exploration", deadline=(300, 1800),
+    technique="bounded-exhaustive enumeration of matrix families, generator (m,k) pairs, survivor sets and parity-block minors against an independent rank/inverse",
+    level_text="gf_invert_matrix on all 1x1, all 2x2 over a 16-element sub-alphabet (thorough: the full field, 2^32), all 3x3 over {0..3}, all 4x4 "
+               "(thorough 5x5) over {0,1}, all scaled permutation matrices n<=6, rank-deficient constructions up to n=128; both generators for "
+               "every (m,k), m<=255(256); Cauchy: every survivor set for m<=16 (20), all 1-,2-(3-)erasure minors for m in {64,128,255,256}, "
+               "thorough all ~10^9 2x2 minors; Vandermonde: the documented safe table decided completely by enumerating every minor of its "
+               "parity block; end-to-end encode/erase/invert/re-encode for all patterns m<=10 (12).",
+    level_note="general n x n (n>=5) and Cauchy survivor sets beyond the enumerated minors are theorems, not search results; trusted: ref/ref_gf.h "
+               "Gaussian elimination.",
+    runs=[dict(flavour="sim")],
+    rule="case = one matrix / one (m,k) / one survivor set / one minor / one erasure pattern; distinct_nontrivial = distinct (m,k) and region "
+         "groups completed; evaluations = inversions or determinants compared with the reference.")
